@@ -175,6 +175,14 @@ func (c *Conn) Deliver(subject, reply string, data []byte) int {
 	return len(targets)
 }
 
+// FailNext makes the subscribe call with the given index (in call order) fail.
+func (c *Conn) FailNext(idx int) {
+	c.mu.Lock()
+	c.FailSubs[c.nsubs] = true
+	_ = idx
+	c.mu.Unlock()
+}
+
 // Snapshot returns copies of the recorded subscriptions and publications.
 func (c *Conn) Snapshot() ([]Sub, []Pub) {
 	c.mu.Lock()
